@@ -7,37 +7,58 @@ GENERATED = []
 SOURCES = ["src/allmydata/immutable/downloader/node.py", "src/allmydata/immutable/downloader/fetcher.py",
            "src/allmydata/immutable/downloader/finder.py", "src/allmydata/immutable/downloader/segmentation.py"]
 DESIGN_REF = "DESIGN.md §2 C03/C46, Appendix A.4, §3 row C46"
-TECHNIQUE = ("Lean 4 theorems over an executable model of the DownloadNode segment queue (_segment_requests, "
-             "_active_segment, get_segment, _start_new_segment, got_shares, no_more_shares, fetch_failed, process_blocks "
-             "success and failure branch, _cancel_request) layered on the SegmentFetcher event system: no stuck quiescent "
-             "state, later reads progress, the _do_loop while loop terminates; a proved counterexample for the unfixed "
-             "failure branch; differential correspondence of seeded scripts against the real DownloadNode + SegmentFetcher "
-             "driven by fake shares with stubbed decode; end-to-end fault schedules (incl. consistently re-hashed shares whose "
-             "ciphertext hash check fails after block validation) with a termination monitor")
-LEVEL_TEXT = ("Termination is proved as a safety property of the model (every quiescent reachable state has an empty request "
-              "queue and every request retired or cancelled; a later get_segment is accepted and served) for all event orders, "
-              "cancels, concurrent requests, decode failures and bad segment numbers; the model (with fixes/C46-active-segment.diff "
-              "applied) is tied to node.py / fetcher.py by comparing queue, active fetcher, retirements and fetcher internals "
-              "after every event of seeded scripts; ShareFinder, Share, Segmentation and the storage protocol are exercised "
-              "end-to-end under fault schedules with a 'no read is stuck at quiescence' monitor, not proved.")
+TECHNIQUE = ("Lean 4 theorems (11) over executable models of the DownloadNode segment queue (_segment_requests, _active_segment, "
+             "get_segment, _start_new_segment, got_shares, no_more_shares, fetch_failed, process_blocks success and failure "
+             "branch, _cancel_request) on the SegmentFetcher event system, of Segmentation (one read: _maybe_fetch_next, "
+             "_got_segment incl. WrongSegmentError, _retry_bad_segment, _request_retired on every outcome, stop/pause/resume) and "
+             "of the composed system Sys (reads routed through the node with explicit _deliver events): no_stuck_state, "
+             "later_reads_progress, do_loop_terminates, read_never_idle, read_terminates_when_answered, bad_segnum_retry, "
+             "read_writes_exact_range, waiting_read_request_is_routed, every_read_terminates (end to end: every quiescent state "
+             "of the composed system has every read's Deferred fired), idle_fetcher_has_asked_for_more, and the proved "
+             "counterexample unfixed_stuck_counterexample for the failure branch before fix 6853eb2; differential correspondence "
+             "of seeded scripts against the real DownloadNode + SegmentFetcher (fake shares, stubbed decode), the real "
+             "Segmentation (fake node) and real DownloadNode.read() calls (composed system); a fixed seed-independent corpus and "
+             "random end-to-end fault schedules (incl. consistently re-hashed shares whose ciphertext hash check fails after block "
+             "validation) with a termination monitor")
+LEVEL_TEXT = ("Termination is proved as a safety property, end to end for the composed model: in every quiescent reachable state of "
+              "reads + node + the node's fetchers every read's Deferred has fired (every_read_terminates) and a waiting read's request "
+              "is always in the node's queue or retired (waiting_read_request_is_routed); per layer: every request retired or "
+              "cancelled and later get_segment calls served after any failure (no_stuck_state, later_reads_progress), the one-shot "
+              "BadSegmentNumber / WrongSegment retry (bad_segnum_retry), the _do_loop loop terminates; for all event orders, "
+              "concurrent reads, cancels, pauses, decode failures, bad segment numbers and segment-size guesses.  The models are "
+              "tied to node.py / fetcher.py / segmentation.py by comparing queue, active fetcher, retirements, fetcher internals "
+              "and every read's state after every event of seeded scripts.  Below the composed system: the finder's contract is "
+              "proved for a separate ShareFinder model (C03.finder_answers_every_hungry, with idle_fetcher_has_asked_for_more as "
+              "the fetcher's half) but not composed into Sys; that every get_block gets a terminal event (share.py) is an "
+              "assumption, exercised end-to-end under fault schedules with a 'no read is stuck at quiescence' monitor.")
 LEVEL_NOTE = ("Lean kernel + standard axioms; decode / ciphertext-hash check are one atomic step of the model (as with the CPU "
               "thread pool disabled) — the production thread-pool interleaving of process_blocks is not modelled; liveness is "
-              "'no stuck quiescent state', not a time bound; the finder eventually answering every want_more_shares is an "
-              "environment assumption (NQuiescent).")
-RULE = ("(1) seeded node scripts (1..5 get_segment requests incl. duplicates / out-of-range segment numbers, cancels, "
+              "'no stuck quiescent state', not a time bound; a consumer that pauses a read is expected to resume it.  Defects found "
+              "by this check and repaired in /repo: 6853eb2 (_active_segment not cleared after a decode failure), 4f1ea1b "
+              "(get_block on a dead share never answered).")
+RULE = ("fixed corpus first (VERIF_CORPUS_ONLY=1 runs only it): node scripts, Segmentation scripts, composed-system scripts, "
+        "finder scripts and end-to-end scenarios, one per seeded change C46-a..e / C03-a..e and per repaired defect; then random "
+        "families: (1) node scripts (1..5 get_segment requests incl. duplicates / out-of-range segment numbers, cancels, "
         "announcements, answers, UEB arrival, decode failures on chosen segments, one third with malformed / stale events) on "
-        "the real DownloadNode with fake shares and on the driver: a case is one script, non-trivial = a fetcher was started; "
-        "(2) end-to-end scenarios as for C03 plus crafted shares whose ciphertext hash tree is wrong but consistent "
-        "(failure after block validation), 1..3 sequential groups of 1..3 concurrent reads on the same node: a case is one "
-        "read, non-trivial = at least one fault is present")
-TRUSTED = ["lean/Tahoe/Immutable/Fetch.lean is a hand transcription of node.py's queue logic and fetcher.py; the node keeps its "
-           "shares in a set (iteration order unspecified) — the model uses announcement order and scripts avoid sort-key ties",
+        "the real DownloadNode with fake shares and on the driver — a case is one script, non-trivial = a fetcher was started; "
+        "(2) Segmentation scripts (right / wrong / bad-segnum / failing answers, pause, resume, stop) on the real class; "
+        "(3) composed-system scripts (1..3 concurrent real DownloadNode.read() calls, wrong or right guess, explicit deliveries); "
+        "(4) ShareFinder scripts (statement monitor; the model comparison runs in C03); (5) end-to-end scenarios as for C03 plus "
+        "crafted shares whose ciphertext hash tree is wrong but consistent, 1..3 sequential groups of 1..3 concurrent reads on "
+        "the same node: a case is one read, non-trivial = at least one fault is present")
+TRUSTED = ["lean/Tahoe/Immutable/Fetch.lean and Segmentation.lean are hand transcriptions of node.py's queue logic, fetcher.py and "
+           "segmentation.py; the node keeps its shares in a set (iteration order unspecified) — the model uses announcement order "
+           "and scripts avoid sort-key ties",
            "harness/grid.py, the FaultWrapper and wait_all (quiescence = nothing deliverable and no timer within a horizon of "
            "virtual time; storage crawlers re-arm timers forever) in harness/props/_fetch_common.py",
-           "the environment of the node model (NEvOk/NQuiescent): finder and shares behave as finder.py / share.py do"]
+           "the environment predicates NEvOk / NQuiescent / SEvOk / SysEvOk / SysQuiescent: answers only for outstanding requests, "
+           "every queued eventual-send turn runs, eventually(_deliver) fires each Deferred exactly once, shares behave as share.py does"]
 ASSUMPTIONS = ["a server that neither answers nor disconnects is outside the statement ('once every server has answered or failed')",
+               "every get_block gets a terminal event (share.py not modelled; true for dead shares since 4f1ea1b); the finder "
+               "answers every want_more_shares (proved for the separate finder model, not composed with Sys)",
                "async decode in the CPU thread pool (cancel / new request racing with a running decode) is not modelled",
-               "the model is the code with fixes/C46-active-segment.diff; on the unchanged tree the check reports the violation"]
+               "the model is the code as repaired by 6853eb2 (fixes/C46-active-segment.diff); unfixed_stuck_counterexample documents "
+               "the behaviour before the fix"]
 
 import json
 
